@@ -213,3 +213,48 @@ contract(F, 'BinaryOpUGen._determine_rate', props=('C01',),
          params={'self': 'self', 'a': OPND, 'b': OPND},
          ensures=[('highest-rate-among-inputs', rate_post)],
          **common)
+
+
+# ---- the rate an operator unit is given when it is initialised ------------------------
+def init_rate_post(names):
+    def f(c):
+        rv = c.post.self.v('_rate')
+        want = z3.IntVal(0)
+        for n in names:
+            r = rate_of(c._params[n])
+            want = z3.If(r > want, r, want)
+        if rv.k == 'ratestr':
+            return rv.z == want
+        if rv.k == 'str' and rv.py in RATE:
+            return want == RATE[rv.py]
+        return z3.BoolVal(False)
+    return f
+
+
+def h_getattr_init(eng, obj, name, st, node):
+    r = h_getattr(eng, obj, name, st, node)
+    if r is not None:
+        return r
+    if obj.k == 'ref' and obj.oid == 'self' and name == 'inputs':
+        f = st.objs.get('self', {})
+        if '_inputs' in f:
+            return [(st, f['_inputs'])]
+    return None
+
+
+INIT_FIELDS = {'_rate': 'obj', '_inputs': 'obj', 'operator': 'obj', '_operator': 'obj',
+               '_special_index': 'obj'}
+for cls, params in (('MulAdd', ['input', 'mul', 'add']),):
+    contract(F, cls + '._init_ugen', props=('C01',),
+             params=dict([('self', 'self')] + [(p, OPND) for p in params]),
+             ensures=[('rate-is-the-highest-among-its-own-inputs', init_rate_post(params))],
+             fields={cls: INIT_FIELDS},
+             **dict(common, hooks=dict(HOOKS, getattr=h_getattr_init)))
+
+contract(F, 'UnaryOpUGen._init_ugen', props=('C01',),
+         params={'self': 'self', 'operator': 'obj', 'input': OPND},
+         ensures=[('rate-is-the-rate-of-its-input', init_rate_post(['input']))],
+         fields={'UnaryOpUGen': INIT_FIELDS},
+         **dict(common, hooks=dict(HOOKS, getattr=h_getattr_init, setattr=(
+             lambda eng, obj, name, v, st, node: (
+                 [('next', st)] if (obj.k == 'ref' and name == 'operator') else None)))))
